@@ -296,7 +296,7 @@ def run(ctx):
             nvals = len(spec["values"])
         probs = adversarial_probs(rng, max(1, nvals))
         stats["by_kind"][spec["kind"]] = stats["by_kind"].get(spec["kind"], 0) + 1; stats["probs"] += len(probs)
-        bad = spec_hp(spec, hp, probs, [rng.randint(0, 10 ** 6) for _ in range(3)])
+        bad = spec_hp(spec, hp, probs, [0, rng.choice([-1, -7, 2 ** 40, True]), rng.randint(-5, 5)] + [rng.randint(0, 10 ** 6) for _ in range(2)])
         if bad:
             failures.append(Failure("violation", "C14/%s/%s" % (bad[0], spec["kind"]), "%r: %s" % (spec, bad[1]), {"hp": spec}))
         t = emit_case(spec, hp, probs)
